@@ -593,17 +593,60 @@ func (db *Database) performFuzzySearch(query string, options SearchOptions) []Se
 }
 
 // passesFilters reports whether a command may be returned under the platform and pipeline
-// options (the gates processPostingsForTerm applies to the index scan).
+// options (the gates of the index scan and of the typo fallback).
 func (db *Database) passesFilters(doc *Command, currentPlatform string, options SearchOptions) bool {
-	if !options.AllPlatforms && len(doc.Platform) > 0 {
-		if !isPlatformCompatible(doc.Platform, currentPlatform) && !isCrossPlatformTool(doc.Command) {
-			return false
-		}
+	if !options.AllPlatforms && len(doc.Platform) > 0 && !platformAllowed(doc, currentPlatform, options) {
+		return false
 	}
 	if options.PipelineOnly && !isPipelineCommand(doc) {
 		return false
 	}
 	return true
+}
+
+// platformAllowed reports whether a command that declares platforms is eligible: it declares one
+// of the platforms in force (the ones requested with --platform, otherwise the host), or — unless
+// cross-platform entries are excluded — it is tagged cross-platform or is a recognised
+// cross-platform tool.
+func platformAllowed(doc *Command, currentPlatform string, options SearchOptions) bool {
+	if len(options.Platforms) == 0 {
+		if declaresPlatform(doc.Platform, currentPlatform) {
+			return true
+		}
+	}
+	for _, want := range options.Platforms {
+		if declaresPlatform(doc.Platform, want) {
+			return true
+		}
+	}
+	if options.NoCrossPlatform {
+		return false
+	}
+	return declaresCrossPlatform(doc.Platform) || isCrossPlatformTool(doc.Command)
+}
+
+// declaresPlatform reports whether one of the declared platforms is the wanted one (or a known
+// variant of it); the 'cross-platform' tag does not count here.
+func declaresPlatform(platforms []string, want string) bool {
+	for _, p := range platforms {
+		if strings.EqualFold(p, "cross-platform") {
+			continue
+		}
+		if strings.EqualFold(p, want) || checkPlatformVariant(p, strings.ToLower(want)) {
+			return true
+		}
+	}
+	return false
+}
+
+// declaresCrossPlatform reports whether the command carries the 'cross-platform' tag.
+func declaresCrossPlatform(platforms []string) bool {
+	for _, p := range platforms {
+		if strings.EqualFold(p, "cross-platform") {
+			return true
+		}
+	}
+	return false
 }
 
 // combineAndDeduplicateResults merges exact and fuzzy results, removing duplicates
